@@ -335,3 +335,17 @@ Theorem C18_gen_derivers_scenario_judged : forall adds,
   forall l, sorted s = Sorted l -> mapped_innermost (map fst l) = true.
 Proof. exact gen_derivers_scenario_judged. Qed.
 Print Assumptions C18_gen_derivers_scenario_judged.
+
+(* the predicate directives, every hop regenerated from the source (add_*_predicate -> _add_predicate -> register ->
+   get_predlist(type).add -> sorter.add): the directive's arguments reach the sorter of the list of its own kind with
+   after = weighs_more_than and before = weighs_less_than *)
+Theorem C18_gen_pred_chain_is_spec : forall k n v more less,
+  gen_pred_chain k n v more less = (pkind_text k, (n, v, more, less)).
+Proof. exact gen_pred_chain_is_spec. Qed.
+Print Assumptions C18_gen_pred_chain_is_spec.
+
+Theorem C18_gen_preds_scenario_judged : forall k adds,
+  let s0 := fold_left (fun s n => gen_pred_step k s (n, 0%N, HNone, HNone)) (pd_defaults k) (new_sorter cfg_plain) in
+  judge cfg_plain (decls_of cfg_plain (pred_ops k adds)) (sorted (fold_left (gen_pred_step k) adds s0)) = true.
+Proof. exact gen_preds_scenario_judged. Qed.
+Print Assumptions C18_gen_preds_scenario_judged.
